@@ -23,13 +23,13 @@ func c12Closed(ch chan struct{}) bool {
 }
 
 type c12State struct {
-	s     *ResourceSemaphore
-	chans []chan struct{}
-	amt   []int64
+	s      *ResourceSemaphore
+	chans  []chan struct{}
+	amt    []int64
 	locks0 int
-	max0  int64
-	cur0  int64
-	res0  int64
+	max0   int64
+	cur0   int64
+	res0   int64
 }
 
 // c12Pre builds an arbitrary semaphore with k waiters satisfying semInv.
